@@ -563,6 +563,78 @@ impl Campaign for MacroCampaign {
     }
 }
 
+/// C02 through the macro call form: the value section of the line a macro sends must be
+/// the value section the direct tagged call sends for the same value (which the fmt
+/// campaigns of C02 judge against the reference numerals). Tags, handler behaviour and
+/// the unset state are C17's business and are not judged here.
+pub struct MacroValues;
+
+fn value_section<'a>(line: &'a str, key: &str) -> Option<&'a str> {
+    let pat = format!("{}:", key);
+    let i = line.find(&pat)?;
+    line[i + pat.len()..].split('|').next()
+}
+
+impl Campaign for MacroValues {
+    type Case = MacroCase;
+    fn name(&self) -> &'static str {
+        "macro-values"
+    }
+    fn max_shrink_iters(&self) -> u32 {
+        150
+    }
+    fn strategy(&self, _tier: Tier) -> BoxedStrategy<MacroCase> {
+        macro_case()
+    }
+    fn check(&self, case: &MacroCase, _ctx: &Ctx) -> Outcome {
+        let obs = match run_child(case) {
+            Ok(o) => o,
+            Err(e) => {
+                util::mark_inconclusive(&e);
+                return Outcome::ok();
+            }
+        };
+        let mut bad: Vec<String> = Vec::new();
+        let mut compared = 0usize;
+        for (i, (inv, o)) in case.invocations.iter().zip(obs.invocations.iter()).enumerate() {
+            if o.macro_panic.is_some() || o.chain_panic.is_some() || inv.arg_panics {
+                continue;
+            }
+            if o.macro_emitted.len() != 1 || o.chain_emitted.len() != 1 {
+                continue;
+            }
+            let (m, c) = (&o.macro_emitted[0], &o.chain_emitted[0]);
+            // judge only where both lines agree up to the value (same name part)
+            let pat = format!("{}:", inv.key);
+            match (m.find(&pat), c.find(&pat)) {
+                (Some(a), Some(b)) if a == b && m[..a] == c[..b] => {}
+                _ => continue,
+            }
+            if let (Some(vm), Some(vc)) = (value_section(m, &inv.key), value_section(c, &inv.key)) {
+                compared += 1;
+                if vm != vc {
+                    bad.push(format!(
+                        "invocation #{} ({:?}): the macro sent the value '{}' but the direct call with the same argument sends '{}'",
+                        i,
+                        inv.entry,
+                        crate::fmt::model::clip(vm),
+                        crate::fmt::model::clip(vc)
+                    ));
+                    break;
+                }
+            }
+        }
+        Outcome {
+            verdict: match bad.first() {
+                None => Ok(()),
+                Some(b) => Err(b.clone()),
+            },
+            nontrivial: compared >= 2,
+            fingerprint: util::hash_json(case),
+            classes: vec!["value section of macro vs direct call"],
+        }
+    }
+}
 
 // ---------------------------------------------------------------------------
 // C18 (process-global wrappers): racing set_global_default in a fresh process
